@@ -117,3 +117,31 @@ Example ex_pure_literal :
                    EBinary BLt (EUnary UNeg (EBigInt 5) false) (EBigInt 6)] in
   can_remove ex_unbound e = true /\ plain e = true /\ ex_eval e = ([], Ok (VObj 0)).
 Proof. vm_compute. auto. Qed.
+
+(* ---- Build.v: a two-file program.
+   file 0 (entry):  import {..} from "./1";  const a = b;  f(a);  const unused = 1;
+   file 1:          export const b = 2, c = g();   function dead() { return c }
+   symbols: a=(0,1) b=(0,2) c=(0,3) f=(0,4) g=(0,5) unused=(0,6) dead=(0,7) ---- *)
+From V Require Import C04.Build C04.BuildProofs C04.HarnessBuild.
+Local Open Scope nat_scope.
+Definition ex_prog : list tfile :=
+  [ mkTFile true true
+      [ TImportLike (mkTDecl [] [] true) (mkImp true true 1 false);
+        TLocal [mkTDecl [(0,1)] [(0,2)] true];
+        TOther (mkTDecl [] [(0,4); (0,1)] false);
+        TLocal [mkTDecl [(0,6)] [] true] ];
+    mkTFile true false
+      [ TLocal [mkTDecl [(0,2)] [] true; mkTDecl [(0,3)] [(0,5)] false];
+        TOther (mkTDecl [(0,7)] [(0,3)] true) ] ].
+Definition ex_linked := link true false [0] ex_prog.
+(* parts of file 0: 0 ns-export, 1 import, 2 "a", 3 "f(a)", 4 "unused";
+   file 1: 0 ns-export, 1 "b", 2 "c = g()", 3 "dead".  f(a) keeps a, a keeps b in file 1;
+   c = g() is impure and stays; "unused" and "dead" go *)
+Example ex_linked_live :
+  mark ex_linked (default_fuel ex_linked) =
+  Some [IPart 1 1; IPart 0 2; IPart 0 3; IPart 0 1; IPart 1 2; IFile 1; IFile 0].
+Proof. vm_compute. reflexivity. Qed.
+Example ex_parts_check :
+  HarnessBuild.parts_ok (true, [(3%Z, [([1%Z], [2%Z], true)]); (0%Z, [([3%Z], [1%Z], true); ([2%Z], [], false)])],
+                               [(true, [], [], 0%Z); (true, [1%Z], [1%Z; 2%Z], 0%Z); (true, [3%Z], [1%Z], 0%Z); (false, [2%Z], [], 0%Z)]) = true.
+Proof. vm_compute. reflexivity. Qed.
